@@ -28,7 +28,7 @@ def run_one(patch, pid, tier, extra_props=()):
 	if a.returncode != 0:
 		a = sh(f"git -C {REPO} apply --3way --whitespace=nowarn {patch}")
 		if a.returncode != 0:
-			sh(f"git -C {REPO} checkout -- . ; git -C {REPO} reset -q")
+			sh(f"git -C {REPO} reset -q --hard HEAD")
 			return {"apply": "FAILED: " + a.stderr.strip()[:300]}
 		sh(f"git -C {REPO} reset -q")
 	try:
@@ -38,7 +38,7 @@ def run_one(patch, pid, tier, extra_props=()):
 			res[p] = {"rc": r.returncode, "sigs": [s.split()[0][len("signature="):] for s in sigs][:6],
 				"tail": r.stdout.strip().splitlines()[-1][:300] if r.stdout.strip() else r.stderr[-300:]}
 	finally:
-		sh(f"git -C {REPO} checkout -- .")
+		sh(f"git -C {REPO} reset -q --hard HEAD")
 	assert clean()
 	return res
 
